@@ -196,6 +196,14 @@ def const_int(v):
     return None
 
 
+class RaiseReached(AnalysisError):
+    """the analysed path ends in a raise statement"""
+
+    def __init__(self, node):
+        AnalysisError.__init__(self, "E3: reached a raise statement on the analysed path (line %d)" % node.lineno)
+        self.node = node
+
+
 class _Return(Exception):
     def __init__(self, value):
         self.value = value
@@ -345,7 +353,7 @@ class Evaluator:
         if isinstance(st, ast.Continue):
             raise _Continue()
         if isinstance(st, ast.Raise):
-            raise AnalysisError("E3: reached a raise statement on the analysed path (line %d)" % st.lineno)
+            raise RaiseReached(st)
         if isinstance(st, (ast.Import, ast.ImportFrom)):
             return
         raise AnalysisError("E3: unsupported statement %s (line %d)" % (type(st).__name__, st.lineno))
